@@ -26,6 +26,9 @@ SCENARIOS = [
     ("loop-index-mutation", "pub fn main(a: [u8; 3], i: usize) -> [u8; 3] { let mut r = a; for j in 0usize..2usize { if j == i { r[j] = r[j + 1usize]; } } r }"),
     ("dynamic-index-write", "pub fn main(a: [(u8, bool); 3], i: usize, v: u8) -> ([(u8, bool); 3], u8) { let mut r = a; r[i].0 = v; (r, a[0].0 ^ a[1].0 ^ a[2].0) }"),
     ("block-scope-ends", "pub fn main(a: u8, b: u8) -> (u8, u8) { let x = a; let mut y = b; { let x = b; y = x ^ 1u8; { let y = a; } } (x, y) }"),
+    ("mul-literal-effectful-operand", "pub fn main(x: u8) -> (u8, u8) { let mut a = x & 15u8; let r = ({ a = a + 1u8; a }) * 3u8; (r, a) }"),
+    ("mul-literal-left-effectful-operand", "pub fn main(x: i8) -> (i8, i8) { let mut a = x & 7i8; let r = -2i8 * ({ a = a + 1i8; a }); (r, a) }"),
+    ("assign-zero-sized-element", "pub fn main(i: usize) -> u8 { let mut a = [(); 3]; a[i] = (); 1u8 }"),
     ("loop-zero-sized-elements", "enum U { Only }\npub fn main(x: u8, u: [U; 3]) -> u8 { let mut c = x; for e in u { c = c ^ 1u8; } c }"),
     ("loop-unit-elements", "pub fn main(x: u8) -> u8 { let mut c = x; for e in [(), ()] { c = c + 1u8; } c }"),
     ("assign-index-effect", "pub fn main(mut a: [u8; 3], v: u8) -> [u8; 3] { a[{ a[1usize] = 7u8; 0usize }] = v; a }"),
